@@ -4,12 +4,13 @@ use super::common::*;
 use crate::core::*;
 use crate::gen::*;
 use crate::oracle::*;
+use crate::oracle::items;
 use proptest::collection::vec;
 use proptest::prelude::*;
 use serde::{Deserialize, Serialize};
 use similar::algorithms::IdentifyDistinct;
 use similar::{capture_diff_slices, DiffableStr, TextDiff};
-use std::ops::{Add, Index};
+use std::ops::Add;
 
 pub struct C14;
 
@@ -128,6 +129,29 @@ where
     Ok(())
 }
 
+/// IdentifyDistinct over items with a lawful but coarse Hash: ids must still follow equality
+fn ident_check_coarse(c: &SeqCase) -> Result<(), String> {
+    let oc: Vec<items::Coarse> = c.old.iter().map(|x| items::Coarse(*x)).collect();
+    let nc: Vec<items::Coarse> = c.new.iter().map(|x| items::Coarse(*x)).collect();
+    let h = IdentifyDistinct::<u32>::new(&oc[..], c.old_r(), &nc[..], c.new_r());
+    let (ol, nl) = (h.old_lookup(), h.new_lookup());
+    let mut all: Vec<(u32, u32)> = vec![];
+    for i in c.old_r() {
+        all.push((c.old[i], ol[i]));
+    }
+    for j in c.new_r() {
+        all.push((c.new[j], nl[j]));
+    }
+    for a in 0..all.len() {
+        for b in a + 1..all.len() {
+            if (all[a].0 == all[b].0) != (all[a].1 == all[b].1) {
+                return Err(format!("coarse-hash items {} and {} get ids {} and {}", all[a].0, all[b].0, all[a].1, all[b].1));
+            }
+        }
+    }
+    Ok(())
+}
+
 fn check(case: &Case, obs: &mut Obs) -> Verdict {
     match case {
         Case::Text { case: c, nt } => {
@@ -148,6 +172,11 @@ fn check(case: &Case, obs: &mut Obs) -> Verdict {
             };
             // u8 ids only when they cannot overflow ("integer types wide enough")
             let ty = if c.mode % 5 == 4 && distinct > 255 { 1 } else { c.mode % 5 };
+            match guard(|| ident_check_coarse(c)) {
+                Ok(Ok(())) => {}
+                Ok(Err(m)) => return Verdict::Fail(format!("IdentifyDistinct: {}", m)),
+                Err(p) => return Verdict::Fail(format!("IdentifyDistinct over coarse-hash items: {}", p)),
+            }
             let r = guard(|| match ty {
                 0 => ident_check::<u16>(c),
                 1 => ident_check::<u32>(c),
@@ -171,8 +200,8 @@ fn check(case: &Case, obs: &mut Obs) -> Verdict {
 /// texts with a chosen number of items per side, straddling the 100-token threshold
 fn sized_text_case(tier: Tier) -> BoxedStrategy<TextCase> {
     let sizes = || prop_oneof![Just(0usize), Just(1), Just(2), Just(50), Just(51), Just(99), Just(100), Just(101), Just(102), Just(150), Just(tier.pick(200usize, 300))];
-    let k = || prop_oneof![Just(2u32), Just(3), Just(8), Just(40)];
-    (sizes(), sizes(), k(), vec(0u32..40, 300), vec(0u32..40, 300), vec((0u8..4, any::<u16>(), 0u32..40), 0..=6), any::<bool>(), 0u8..5, 0u8..3, any::<bool>(), any::<bool>())
+    let k = || prop_oneof![Just(2u32), Just(3), Just(8), Just(40), Just(1_000_000u32)];
+    (sizes(), sizes(), k(), vec(0u32..1_000_000, 300), vec(0u32..1_000_000, 300), vec((0u8..4, any::<u16>(), 0u32..1_000_000), 0..=6), any::<bool>(), 0u8..5, 0u8..3, any::<bool>(), any::<bool>())
         .prop_map(|(n, m, k, a, b, edits, related, tok, alg, bytes, trailing)| {
             let old: Vec<u32> = a[..n].iter().map(|x| x % k).collect();
             let new: Vec<u32> = if related {
@@ -245,6 +274,7 @@ fn strat(tier: Tier) -> BoxedStrategy<Case> {
     prop_oneof![
         5 => (sized_text_case(tier), 0u8..3).prop_map(|(case, nt)| Case::Text { case, nt }),
         2 => (text_case_mix(130), 0u8..3).prop_map(|(case, nt)| Case::Text { case, nt }),
+        1 => (distinct_line_case(tier.pick(300, 600)), 0u8..3).prop_map(|(case, nt)| Case::Text { case, nt }),
         3 => seq_case(tier.pick(80, 400), true, 5).prop_map(|seq| Case::Ident { seq }),
     ]
     .boxed()
@@ -260,7 +290,19 @@ impl Prop for C14 {
         vec!["LCS inputs capped at 160 items".into()]
     }
     fn stages(tier: Tier) -> Vec<Stage<Case>> {
-        vec![Stage { name: "random", kind: StageKind::Random { strategy: strat, cases: tier.pick(40_000, 250_000) } }]
+        vec![
+            Stage {
+                name: "huge",
+                kind: StageKind::Enumerate { scope: "2 fixed line texts with 70 000 distinct lines (token ids beyond 16 bits)".into(), exhaustive: true, gen: |_t, f| {
+                    for c in huge_line_cases() {
+                        if !f(Case::Text { case: c, nt: 0 }) {
+                            return;
+                        }
+                    }
+                } },
+            },
+            Stage { name: "random", kind: StageKind::Random { strategy: strat, cases: tier.pick(40_000, 250_000) } },
+        ]
     }
     fn check(case: &Case, obs: &mut Obs) -> Verdict {
         check(case, obs)
